@@ -57,15 +57,21 @@ static int sp_inv(const _vbi_xds_subpacket *sp)
 
 static unsigned slot_of(unsigned sub) { return sub >= 0x40 ? sub - 0x30 : sub; }
 
-/* slot access at a symbolic (c,i) through concrete loops: symbolic indices into the field-sensitive demux object stall symex */
+/* slot access at a symbolic (c,i) through concrete loops: symbolic indices into the field-sensitive demux object stall symex.
+ * Only classes <= MISC can be selected (the others are never current and never named by an accepted header). */
+#define NCLS_USED (VBI_XDS_CLASS_MISC + 1)
 static _vbi_xds_subpacket slot_get(int sc, int si)
 { _vbi_xds_subpacket r; unsigned c, i; memset(&r, 0, sizeof r);
-  for (c = 0; c < VBI_XDS_MAX_CLASSES; c++) for (i = 0; i < VBI_XDS_MAX_SUBCLASSES; i++) if ((int) c == sc && (int) i == si) r = XD.subpacket[c][i];
+  for (c = 0; c < NCLS_USED; c++) for (i = 0; i < VBI_XDS_MAX_SUBCLASSES; i++) if ((int) c == sc && (int) i == si) r = XD.subpacket[c][i];
   return r; }
 static _vbi_xds_subpacket *slot_ptr(int sc, int si)
 { _vbi_xds_subpacket *r = NULL; unsigned c, i;
-  for (c = 0; c < VBI_XDS_MAX_CLASSES; c++) for (i = 0; i < VBI_XDS_MAX_SUBCLASSES; i++) if ((int) c == sc && (int) i == si) r = &XD.subpacket[c][i];
+  for (c = 0; c < NCLS_USED; c++) for (i = 0; i < VBI_XDS_MAX_SUBCLASSES; i++) if ((int) c == sc && (int) i == si) r = &XD.subpacket[c][i];
   return r; }
+
+/* curr.xds_class/xds_subclass name slot (c,i) */
+static int names(const vbi_xds_demux *xd, int c, int i)
+{ return c >= 0 && (int) xd->curr.xds_class == c && xd->curr.xds_subclass <= 0x7F && (int) slot_of(xd->curr.xds_subclass) == i; }
 
 /* current slot of a demux, -1/-1 if none; returns 0 if curr_sp is not consistent with curr.xds_class/subclass */
 static int xd_cur(const vbi_xds_demux *xd, int *cur_c, int *cur_i)
@@ -82,128 +88,256 @@ static int xd_cur(const vbi_xds_demux *xd, int *cur_c, int *cur_i)
 
 static int ref_unpar(unsigned b) { return ref_odd_parity(b) ? (int) (b & 0x7F) : -1; }
 
-/* ---- 1. INV-STEP + step contract: arbitrary state satisfying the invariant, one arbitrary byte pair.
+/* ---- 1. INV-STEP + step contract: arbitrary state satisfying the invariant, one byte pair.
  * Invariant: every slot's count in {0} u [2,34]; curr_sp is NULL or the slot named by curr.xds_class/subclass
  * (class <= MISC) and that slot is started (count >= 2).
  * The contract is EIA-608 section 9 reassembly written as a relation between pre state, pair, post state and
  * deliveries; from it and the invariant "exactly once, iff checksum and parities good, 1..32 bytes,
  * class/type of the start code" follows for histories of any length.
- * Encoding: the three slots the step can depend on (current, the one a header names, an arbitrary observer)
- * are copied out before and after; the invariant is assumed only for them (weaker assumption, stronger theorem). */
+ *
+ * Encoding (all measured, numbers in C09.py): a slot pointer selected by a symbolic index is dereferenced by cbmc as
+ * "somewhere in XD" and every access through it then costs a selection over the whole 6.8 KB object (0.8 M variables, final
+ * UNSAT call 250-800 s per instance, terminator class no verdict in 1200 s).  Therefore the call is made once per possible
+ * value of the selecting quantity, so that at each call site the pointer the step dereferences is a CONSTANT; exactly one
+ * of the call sites executes, which one is symbolic:
+ *   MODE_CUR   first bytes after which only the current packet is dereferenced (parity error, stuffing, header of a class
+ *              the demux does not store, terminator, caption code, content; with C2K=other: header of a stored class with a
+ *              type it rejects, second byte = boundary values of the accepted ranges): one call site per current slot
+ *              (none / [class][0..0x17]), dispatched by a balanced tree of if/else so that the states are merged pairwise
+ *              (a linear chain of 96 exclusive branches accumulates a 96-deep selection per slot member: quadratic);
+ *              CURC on the grid restricts an instance to one class of the current packet (4x smaller, 4 instances);
+ *   MODE_HDR   header of a stored class with an accepted type: 32 call sites, one per type (0x00-0x17, 0x40-0x47; the second
+ *              byte is then a constant at the call site, the header's slot too); the current-packet pointer stays symbolic
+ *              (it is only overwritten);
+ *   MODE_SYM   the earlier encoding (one call, everything symbolic), kept for the thorough tier where it decides the
+ *              rejected types of stored classes for ALL second bytes.
+ * The contract is asserted once, on the before/after copies of the one slot concerned that the executed call site leaves
+ * in L_o/L_n; the frame ("no other packet is ever touched") slot by slot for all 168 slots against a copy of the pre state. */
+#ifndef C1FIX
+#define C1FIX 0x41
+#endif
+#define C1V ((C1FIX) < 0 ? -1 : (C1FIX))                 /* decoded first byte, -1 = parity error */
+#define IS_HDR (C1V >= 1 && C1V <= 0x0E)
+#define HCLS ((C1V - 1) >> 1)                            /* class a header pair names */
+#define CLS_MISC 3                                       /* = VBI_XDS_CLASS_MISC, an enum constant: not visible to #if */
+_Static_assert(CLS_MISC == VBI_XDS_CLASS_MISC, "CLS_MISC");
+#define HCLS_OK (IS_HDR && HCLS <= CLS_MISC)
+#define HC (HCLS_OK ? HCLS : 0)
+#define K_SLOT 1                                         /* C2K: second byte names an accepted type */
+#define K_OTHER 2                                        /*      rejected type or parity error, boundary values */
+#define K_OTHERSYM 3                                     /*      rejected type or parity error, all values (MODE_SYM) */
+#ifndef C2K
+#define C2K K_SLOT
+#endif
+#define MODE_HDR (HCLS_OK && C2K == K_SLOT)
+#define MODE_SYM (HCLS_OK && C2K == K_OTHERSYM)
+#define MODE_CUR (!MODE_HDR && !MODE_SYM)
+static vbi_xds_demux OLD;
+static int W_key, W_cur;
+static int T_set;                 /* the slot concerned (current slot resp. header's slot) may change */
+static _vbi_xds_subpacket L_o, L_n; static int L_none, L_this;      /* left by the executed call site */
+
+/* contract for everything but accepted headers, about the current slot: o/n = its state before/after, has = there is one;
+   now_none / now_this: curr_sp afterwards is NULL / still this slot.  W_key: the most specific case of the class was reached. */
+static void contract_cur(int has, int cc, int ci, _vbi_xds_subpacket o, _vbi_xds_subpacket n, int c1, int c2, vbi_bool r,
+                         int now_none, int now_this, unsigned o_class, unsigned o_sub)
+{
+  unsigned i;
+  V_ASSERT(now_none || (has && now_this && names(&XD, cc, ci)), "step_inv_curr_consistent");
+  if (has) V_ASSERT(sp_inv(&n), "step_inv_prev_current");
+  if (!now_none) V_ASSERT(n.count >= 2, "step_inv_current_started");
+  V_ASSERT(cb_n <= 1, "step_at_most_one_delivery");
+  if (c1 < 0 || c2 < 0) {                       /* parity error: current packet dropped, nothing delivered */
+    V_ASSERT(!r && cb_n == 0 && now_none, "step_parity_drops_current");
+    T_set = 1;
+    if (has) { V_ASSERT(n.count == 0, "step_parity_clears"); if (C1V < 0) W_key = 1; }
+  } else if (c1 == 0) {
+    V_ASSERT(r && cb_n == 0 && (has ? now_this : now_none), "step_stuffing_noop");
+    if (has) W_key = 1;
+  } else if (c1 <= 0x0E) {                      /* header with unknown class or type: ends the current packet */
+    V_ASSERT(r && cb_n == 0, "step_header_no_delivery");
+    V_ASSERT(now_none, "step_unknown_header_ends_current");
+    T_set = 1;
+    if (has) { V_ASSERT(n.count == 0, "step_unknown_header_clears"); W_key = 1; }
+  } else if (c1 == 0x0F) {
+    if (!has) V_ASSERT(r && cb_n == 0 && now_none, "step_end_without_packet");
+    else {
+      int good = (((o.checksum + (unsigned) c1 + (unsigned) c2) & 0x7F) == 0) && o.count > 2;
+      T_set = 1;
+      V_ASSERT(now_none && n.count == 0, "step_end_closes");
+      V_ASSERT((cb_n == 1) == good, "step_deliver_iff_checksum_good");
+      if (good) {
+        V_ASSERT(cb_log[0].cls == o_class && cb_log[0].sub == o_sub, "step_deliver_class_type");
+        V_ASSERT(cb_log[0].size == o.count - 2, "step_deliver_length");
+        for (i = 0; i < 32; i++) if (i < o.count - 2) V_ASSERT(cb_log[0].buf[i] == o.buffer[i], "step_deliver_bytes");
+        if (o.count == 34) W_key = 1;           /* a full 32 byte packet is delivered */
+      }
+    }
+  } else if (c1 <= 0x1F) {
+    V_ASSERT(r && cb_n == 0 && now_none, "step_caption_ends_xds");
+    if (has) W_key = 1;
+  } else {
+    V_ASSERT(r && cb_n == 0, "step_content_no_delivery");
+    if (!has) V_ASSERT(now_none, "step_content_ignored");
+    else {
+      T_set = 1;
+      if (o.count + 2 > 34) V_ASSERT(now_none && n.count == 0, "step_overlong_discarded");
+      else {
+        V_ASSERT(now_this, "step_content_keeps_current");
+        V_ASSERT(n.count == o.count + 1 + (c2 != 0), "step_content_count");
+        V_ASSERT(n.checksum == o.checksum + (unsigned) c1 + (unsigned) c2, "step_content_checksum");
+        for (i = 0; i < 32; i++) {
+          if (i + 2 < o.count) V_ASSERT(n.buffer[i] == o.buffer[i], "step_content_prefix_kept");
+          if (i + 2 == o.count) V_ASSERT(n.buffer[i] == c1, "step_content_byte1");
+          if (i + 1 == o.count && c2 != 0) V_ASSERT(n.buffer[i] == c2, "step_content_byte2");
+        }
+        if (n.count == 34) W_key = 1;           /* the buffer gets full */
+      }
+    }
+  }
+}
+
+/* contract for an accepted header (stored class, accepted type) about the slot it names: o/n = that slot before/after */
+static void contract_hdr(int hc, int hi, _vbi_xds_subpacket o, _vbi_xds_subpacket n, int c1, int c2, vbi_bool r, int now_none, int now_this)
+{
+  V_ASSERT(now_none || (now_this && names(&XD, hc, hi)), "step_inv_curr_consistent");
+  V_ASSERT(sp_inv(&n), "step_inv_header_slot");
+  if (!now_none) V_ASSERT(n.count >= 2, "step_inv_current_started");
+  V_ASSERT(r && cb_n == 0, "step_header_no_delivery");
+  if (c1 & 1) {
+    T_set = 1;
+    V_ASSERT(now_this, "step_start_selects");
+    V_ASSERT(n.count == 2 && ((n.checksum ^ (unsigned) (c1 + c2)) & 0x7F) == 0, "step_start_resets");
+    V_ASSERT((int) XD.curr.xds_class == hc && XD.curr.xds_subclass == (unsigned) c2, "step_start_class_type");
+    if (o.count > 2) W_key = 1;                 /* a packet in progress is restarted */
+  } else if (o.count == 0) {
+    T_set = 1;
+    V_ASSERT(now_none && n.count == 0, "step_continue_without_start");
+  } else {
+    V_ASSERT(now_this, "step_continue_selects");
+    V_ASSERT((int) XD.curr.xds_class == hc && XD.curr.xds_subclass == (unsigned) c2, "step_continue_class_type");
+    W_key = 1;
+  }
+}
+
+#if MODE_CUR
+/* one call site: the current slot is the constant (c,i) */
+static vbi_bool leaf_cur(unsigned c, unsigned i, int cc, int ci, const uint8_t *pair)
+{
+  _vbi_xds_subpacket o = XD.subpacket[c][i]; vbi_bool r;
+  V_ASSERT((int) c == cc && (int) i == ci, "harness_dispatch");
+  V_ASSUME(o.count >= 2 && o.count <= 34); W_cur = 1;           /* invariant, assumed for the current slot only */
+  XD.curr_sp = &XD.subpacket[c][i];
+  r = vbi_xds_demux_feed(&XD, pair);
+  L_o = o; L_n = XD.subpacket[c][i]; L_none = (XD.curr_sp == NULL); L_this = (XD.curr_sp == &XD.subpacket[c][i]);
+  return r;
+}
+#define LEAF(c, i) { r = leaf_cur((c), (i), cc, ci, pair); }
+#define T3(c, i)   { if (ci <= (i)) LEAF(c, i) else { if (ci <= (i) + 1) LEAF(c, (i) + 1) else LEAF(c, (i) + 2) } }
+#define T6(c, i)   { if (ci <= (i) + 2) T3(c, i) else T3(c, (i) + 3) }
+#define T12(c, i)  { if (ci <= (i) + 5) T6(c, i) else T6(c, (i) + 6) }
+#define T24(c)     { if (ci <= 11) T12(c, 0) else T12(c, 12) }
+#ifdef CURC        /* runner grid: class of the current packet (one instance per class; "no current packet" is part of every instance) */
+#define T96        T24(CURC)
+#else
+#define T96        { if (cc <= 1) { if (cc <= 0) T24(0) else T24(1) } else { if (cc <= 2) T24(2) else T24(3) } }
+#endif
+#if HCLS_OK
+/* rejected second bytes of a header of a stored class: boundaries of the accepted ranges 0x00-0x17 / 0x40-0x47; the last entry is sent with a parity error */
+static const uint8_t c2_other[] = { 0x18, 0x3F, 0x48, 0x7F, 0x18 };
+#define N_C2_OTHER 5
+#endif
+#endif
+
 V_HARNESS(h_xds_step)
 {
-  unsigned i; uint8_t pair[2]; int c1, c2, cc, ci, nc, ni; vbi_bool r;
-  int t_c = -1, t_i = -1;           /* slot that may change */
-  int hc = -1, hi = -1, oc, oi;     /* slot named by a header pair; arbitrary observer slot */
-  _vbi_xds_subpacket o_cur, o_hdr, o_obs, n_cur, n_hdr, n_obs; vbi_xds_packet o_curr;
+  unsigned i, c; uint8_t pair[2]; int c1, c2, cc = -1, ci = -1; vbi_bool r = FALSE; unsigned o_class, o_sub;
   V_INIT();
   memcpy(&XD, &VINS.b[0], sizeof XD);                            /* arbitrary state image */
   vin_pos = sizeof XD;
   XD.callback = cb; XD.user_data = &cb_n;
+  XD.curr_sp = NULL;
   { unsigned has = in_u8(), sc = in_u8(), si = in_u8();
-    if (has & 1) { V_ASSUME(sc <= VBI_XDS_CLASS_MISC && si < VBI_XDS_MAX_SUBCLASSES); XD.curr_sp = slot_ptr((int) sc, (int) si); }
-    else XD.curr_sp = NULL; }
-  pair[0] = in_u8(); pair[1] = in_u8();
-#ifdef C1FIX      /* case split on the first byte (runner grid): the demux dispatches on it */
-  pair[0] = (C1FIX < 0) ? (uint8_t) (ref_par8(-(C1FIX)) ^ 0x80) : (uint8_t) ref_par8(C1FIX);
+    if (has & 1) { V_ASSUME(sc <= VBI_XDS_CLASS_MISC && si < VBI_XDS_MAX_SUBCLASSES); cc = (int) sc; ci = (int) si;
+#ifdef CURC
+      V_ASSUME(sc == CURC);
 #endif
+      V_ASSUME(names(&XD, cc, ci)); } }                           /* curr names the current slot; curr_sp itself is set below */
+  pair[0] = in_u8(); pair[1] = in_u8();
+  /* case split on the first byte (runner grid): the demux dispatches on it */
+  pair[0] = (C1FIX < 0) ? (uint8_t) (ref_par8(-(C1FIX)) ^ 0x80) : (uint8_t) ref_par8(C1FIX);
   c1 = ref_unpar(pair[0]); c2 = ref_unpar(pair[1]);
-  if (c1 >= 1 && c1 <= 0x0E && c2 >= 0 && (unsigned) (c1 - 1) >> 1 <= VBI_XDS_CLASS_MISC && slot_of((unsigned) c2) < VBI_XDS_MAX_SUBCLASSES) {
-    hc = (c1 - 1) >> 1; hi = (int) slot_of((unsigned) c2); }
-  oc = in_u8(); oi = in_u8(); V_ASSUME(oc < VBI_XDS_MAX_CLASSES && oi < VBI_XDS_MAX_SUBCLASSES);
-  V_ASSUME(xd_cur(&XD, &cc, &ci));
-  memset(&o_cur, 0, sizeof o_cur); memset(&o_hdr, 0, sizeof o_hdr);
-  if (cc >= 0) { o_cur = slot_get(cc, ci); V_REACH("cur0"); V_ASSUME(o_cur.count >= 2 && o_cur.count <= 34); V_REACH("cur"); }
-  if (hc >= 0) { o_hdr = slot_get(hc, hi); V_ASSUME(sp_inv(&o_hdr)); }
-  o_obs = slot_get(oc, oi); V_ASSUME(sp_inv(&o_obs));
-  o_curr = XD.curr;
+  V_ASSERT(c1 == C1V, "harness_first_byte");
+  o_class = (unsigned) XD.curr.xds_class; o_sub = XD.curr.xds_subclass;
+  memset(&L_o, 0, sizeof L_o); memset(&L_n, 0, sizeof L_n);
 
-  r = vbi_xds_demux_feed(&XD, pair);
+#if MODE_CUR
+  { unsigned k = 0, sel = 0; (void) k; (void) sel;
+#if HCLS_OK      /* C2K == K_OTHER: second byte = one of the boundary values */
+    sel = in_u8();
+    V_ASSUME(sel < N_C2_OTHER);
+#endif
+    OLD = XD;
+#if HCLS_OK
+    for (k = 0; k < N_C2_OTHER; k++) if (sel == k) {
+      pair[1] = (uint8_t) (ref_par8(c2_other[k]) ^ ((k == N_C2_OTHER - 1) ? 0x80 : 0)); c2 = (k == N_C2_OTHER - 1) ? -1 : (int) c2_other[k];      /* constants at this call site */
+#endif
+      /* every path leaves through `goto called`, so that a later call site is reached only with the untouched pre state */
+      if (cc < 0) { r = vbi_xds_demux_feed(&XD, pair); L_none = (XD.curr_sp == NULL); L_this = 0; }
+      else T96
+      contract_cur(cc >= 0, cc, ci, L_o, L_n, c1, c2, r, L_none, L_this, o_class, o_sub);
+      goto called;
+#if HCLS_OK
+    }
+#endif
+  }
+#elif MODE_HDR
+  { unsigned k;
+    V_ASSUME(c2 >= 0 && slot_of((unsigned) c2) < VBI_XDS_MAX_SUBCLASSES);
+    XD.curr_sp = slot_ptr(cc, ci);                               /* symbolic, never dereferenced on this path */
+    if (cc >= 0) { _vbi_xds_subpacket o = slot_get(cc, ci); V_ASSUME(o.count >= 2 && o.count <= 34); W_cur = 1; }
+    OLD = XD;
+    for (k = 0; k < 32; k++) { unsigned v = k < 0x18 ? k : 0x40 + (k - 0x18), hi = slot_of(v);
+      if (c2 == (int) v) {
+        _vbi_xds_subpacket o = XD.subpacket[HC][hi], n;
+        V_ASSUME(sp_inv(&o));
+        pair[1] = (uint8_t) ref_par8(v);                         /* constant at this call site */
+        r = vbi_xds_demux_feed(&XD, pair);
+        n = XD.subpacket[HC][hi];
+        contract_hdr(HC, (int) hi, o, n, c1, (int) v, r, XD.curr_sp == NULL, XD.curr_sp == &XD.subpacket[HC][hi]);
+        cc = HC; ci = (int) hi;                                  /* the slot concerned, for the frame */
+        goto called;
+      } }
+  }
+#else /* MODE_SYM */
+  { int nc, ni;
+    V_ASSUME(c2 < 0 || slot_of((unsigned) c2) >= VBI_XDS_MAX_SUBCLASSES);
+    XD.curr_sp = slot_ptr(cc, ci);
+    if (cc >= 0) { L_o = slot_get(cc, ci); V_ASSUME(L_o.count >= 2 && L_o.count <= 34); W_cur = 1; }
+    OLD = XD;
+    r = vbi_xds_demux_feed(&XD, pair);
+    L_n = L_o; if (cc >= 0) L_n = slot_get(cc, ci);
+    V_ASSERT(xd_cur(&XD, &nc, &ni), "step_inv_curr_consistent");
+    contract_cur(cc >= 0, cc, ci, L_o, L_n, c1, c2, r, nc < 0, nc >= 0 && nc == cc && ni == ci, o_class, o_sub);
+    goto called;
+  }
+#endif
+  V_ASSERT(0, "harness_one_call_site_taken");
+called:
 
-  V_ASSERT(xd_cur(&XD, &nc, &ni), "step_inv_curr_consistent");
-  n_cur = o_cur; n_hdr = o_hdr;
-  if (cc >= 0) { n_cur = slot_get(cc, ci); V_ASSERT(sp_inv(&n_cur), "step_inv_prev_current"); }
-  if (hc >= 0) { n_hdr = slot_get(hc, hi); V_ASSERT(sp_inv(&n_hdr), "step_inv_header_slot"); }
-  n_obs = slot_get(oc, oi); V_ASSERT(sp_inv(&n_obs), "step_inv_observer");
-  if (nc >= 0) V_ASSERT((nc == cc && ni == ci && n_cur.count >= 2) || (nc == hc && ni == hi && n_hdr.count >= 2), "step_inv_current_started");
-  V_ASSERT(cb_n <= 1, "step_at_most_one_delivery");
-  /* ---- contract ---- */
-  if (c1 < 0 || c2 < 0) {                       /* parity error: current packet dropped, nothing delivered */
-    V_ASSERT(!r && cb_n == 0 && nc < 0, "step_parity_drops_current");
-    t_c = cc; t_i = ci;
-    if (cc >= 0) V_ASSERT(n_cur.count == 0, "step_parity_clears");
-    V_REACH("parity");
-  } else if (c1 == 0) {
-    V_ASSERT(r && cb_n == 0 && nc == cc && ni == ci, "step_stuffing_noop");
-  } else if (c1 <= 0x0E) {
-    V_ASSERT(r && cb_n == 0, "step_header_no_delivery");
-    if (hc < 0) {                               /* unknown class or type: ends the current packet */
-      V_ASSERT(nc < 0, "step_unknown_header_ends_current");
-      t_c = cc; t_i = ci;
-      if (cc >= 0) V_ASSERT(n_cur.count == 0, "step_unknown_header_clears");
-      V_REACH("badhdr");
-    } else if (c1 & 1) {
-      t_c = hc; t_i = hi;
-      V_ASSERT(nc == hc && ni == hi, "step_start_selects");
-      V_ASSERT(n_hdr.count == 2 && ((n_hdr.checksum ^ (unsigned) (c1 + c2)) & 0x7F) == 0, "step_start_resets");
-      V_ASSERT((int) XD.curr.xds_class == hc && XD.curr.xds_subclass == (unsigned) c2, "step_start_class_type");
-    } else if (o_hdr.count == 0) {
-      t_c = hc; t_i = hi;
-      V_ASSERT(nc < 0 && n_hdr.count == 0, "step_continue_without_start");
-    } else {
-      V_ASSERT(nc == hc && ni == hi, "step_continue_selects");
-      V_ASSERT((int) XD.curr.xds_class == hc && slot_of(XD.curr.xds_subclass) == (unsigned) hi, "step_continue_class_type");
-      V_REACH("continue");
-    }
-  } else if (c1 == 0x0F) {
-    if (cc < 0) V_ASSERT(r && cb_n == 0 && nc < 0, "step_end_without_packet");
-    else {
-      int good = (((o_cur.checksum + (unsigned) c1 + (unsigned) c2) & 0x7F) == 0) && o_cur.count > 2;
-      t_c = cc; t_i = ci;
-      V_ASSERT(nc < 0 && n_cur.count == 0, "step_end_closes");
-      V_ASSERT((cb_n == 1) == good, "step_deliver_iff_checksum_good");
-      if (good) {
-        V_ASSERT(cb_log[0].cls == (unsigned) o_curr.xds_class && cb_log[0].sub == o_curr.xds_subclass, "step_deliver_class_type");
-        V_ASSERT(cb_log[0].size == o_cur.count - 2, "step_deliver_length");
-        for (i = 0; i < 32; i++) if (i < o_cur.count - 2) V_ASSERT(cb_log[0].buf[i] == o_cur.buffer[i], "step_deliver_bytes");
-        V_REACH("delivered");
+  /* frame: no packet other than the one this pair starts, extends or ends is touched ("never corrupts another packet"),
+     in particular an interrupted packet stays as it was (resumable) */
+  for (c = 0; c < VBI_XDS_MAX_CLASSES; c++)
+    for (i = 0; i < VBI_XDS_MAX_SUBCLASSES; i++)
+      if (!(T_set && (int) c == cc && (int) i == ci)) {
+        _vbi_xds_subpacket a = XD.subpacket[c][i], b = OLD.subpacket[c][i]; unsigned j; int same = 1;      /* R11: small locals; every access to a member of XD costs symex time ~ |XD| */
+        V_ASSERT(a.count == b.count && a.checksum == b.checksum, "step_frame_count");
+        for (j = 0; j < 32; j++) same &= (a.buffer[j] == b.buffer[j]);
+        V_ASSERT(same, "step_frame_bytes");
       }
-    }
-  } else if (c1 <= 0x1F) {
-    V_ASSERT(r && cb_n == 0 && nc < 0, "step_caption_ends_xds");
-  } else {
-    V_ASSERT(r && cb_n == 0, "step_content_no_delivery");
-    if (cc < 0) V_ASSERT(nc < 0, "step_content_ignored");
-    else {
-      t_c = cc; t_i = ci;
-      if (o_cur.count + 2 > 34) { V_ASSERT(nc < 0 && n_cur.count == 0, "step_overlong_discarded"); V_REACH("overlong"); }
-      else {
-        V_ASSERT(nc == cc && ni == ci, "step_content_keeps_current");
-        V_ASSERT(n_cur.count == o_cur.count + 1 + (c2 != 0), "step_content_count");
-        V_ASSERT(n_cur.checksum == o_cur.checksum + (unsigned) c1 + (unsigned) c2, "step_content_checksum");
-        for (i = 0; i < 32; i++) {
-          if (i + 2 < o_cur.count) V_ASSERT(n_cur.buffer[i] == o_cur.buffer[i], "step_content_prefix_kept");
-          if (i + 2 == o_cur.count) V_ASSERT(n_cur.buffer[i] == c1, "step_content_byte1");
-          if (i + 1 == o_cur.count && c2 != 0) V_ASSERT(n_cur.buffer[i] == c2, "step_content_byte2");
-        }
-        V_REACH("content");
-      }
-    }
-  }
-  /* the slot a header names is untouched unless it is the target */
-  if (hc >= 0 && !(hc == t_c && hi == t_i) && !(hc == cc && hi == ci)) {
-    V_ASSERT(n_hdr.count == o_hdr.count && n_hdr.checksum == o_hdr.checksum, "step_frame_hdr");
-  }
-  if (cc >= 0 && !(cc == t_c && ci == t_i)) {
-    V_ASSERT(n_cur.count == o_cur.count && n_cur.checksum == o_cur.checksum, "step_frame_cur");
-    for (i = 0; i < 32; i++) V_ASSERT(n_cur.buffer[i] == o_cur.buffer[i], "step_frame_cur_bytes");
-  }
-  /* frame: no other packet is ever touched ("never corrupts another packet"); (oc,oi) is arbitrary */
-  if (!(oc == t_c && oi == t_i)) {
-    V_ASSERT(n_obs.count == o_obs.count && n_obs.checksum == o_obs.checksum, "step_frame_count");
-    for (i = 0; i < 32; i++) V_ASSERT(n_obs.buffer[i] == o_obs.buffer[i], "step_frame_bytes");
-    V_REACH("frame");
-  }
+  V_ASSERT(XD.callback == cb && XD.user_data == (void *) &cb_n, "step_frame_callback");
+  if (W_cur) V_REACH("cur");
+  if (W_key) V_REACH("key");
   V_END();
 }
 
